@@ -83,6 +83,11 @@ def gen_ds(rng):
   nleaves = int(rng.integers(1, 4))
   tree = {"p%d" % j: list(SHAPES[int(rng.integers(0, len(SHAPES)))]) for j in range(nleaves)}
   mode = str(rng.choice(["jit", "jit", "jit", "pmap", "sharded"]))
+  if rng.random() < 0.12:
+    # LOBPCG needs statistics of size >= 5k: a configuration in which the deflated root actually runs
+    c.update(lobpcg_topk_precondition=1, block_size=16, compression_rank=0, frequent_directions=False, average_grad=False,
+             reset_preconditioner=False, best_effort_shape_interpretation=False, skip_preconditioning_dim_size_gt=4096)
+    tree = {"p0": [8, 8], "p1": [9, 2]}
   return {"kind": "ds", "cfg": c, "tree": tree, "mode": mode, "hseed": int(rng.integers(0, 2 ** 31))}
 
 
@@ -287,11 +292,17 @@ def check_sm3(c, rec):
 
 
 def gen_tf(rng):
-  shapes = [(4, 3), (6,), (8, 4), (2, 3, 2), (1, 5), (4, 4), (), (1,), (3, 5), (8, 2, 2), (12, 3), (5, 1, 2), (6, 6), (5, 3, 5), (5, 5)]
+  shapes = [(4, 3), (6,), (8, 4), (2, 3, 2), (1, 5), (4, 4), (), (1,), (3, 5), (8, 2, 2), (12, 3), (5, 1, 2), (6, 6), (5, 3, 5), (5, 5), (2, 2, 2), (4, 4, 4), (4, 8, 8), (3, 3, 6)]
   n = int(rng.integers(1, 4))
-  return {"kind": "tf", "tree": {"p%d" % j: list(shapes[int(rng.integers(0, len(shapes)))]) for j in range(n)},
+  tree = {"p%d" % j: list(shapes[int(rng.integers(0, len(shapes)))]) for j in range(n)}
+  block, merge = int(rng.choice([2, 3, 4, 1024])), int(rng.choice([2, 4, 6, 1024]))
+  if rng.random() < 0.15:
+    # boundary of the blocking validation: rank >= 3 with every dimension a multiple (1x or 2x) of the block size
+    block = merge = int(rng.choice([2, 4]))
+    tree = {"p0": [block * int(m) for m in rng.integers(1, 3, size=int(rng.integers(3, 5)))]}
+  return {"kind": "tf", "tree": tree,
           "second": str(rng.choice(["shampoo", "sketchy"])), "graft": str(rng.choice(["none", "sgd", "rmsprop", "adafactor"])),
-          "block": int(rng.choice([2, 3, 4, 1024])), "merge": int(rng.choice([2, 4, 6, 1024])), "rank": int(rng.choice([1, 2, 128])),
+          "block": block, "merge": merge, "rank": int(rng.choice([1, 2, 128])),
           "start": int(rng.choice([0, 2])), "skip_rank1": bool(rng.integers(0, 2)), "dim_gt": int(rng.choice([4096, 6])),
           "mdecay": float(rng.choice([0.0, 0.9])), "ema": bool(rng.integers(0, 2)), "nesterov": bool(rng.integers(0, 2)),
           "wd": float(rng.choice([0.0, 0.1])), "wd_after": bool(rng.integers(0, 2)), "sched": bool(rng.integers(0, 2)),
